@@ -357,6 +357,16 @@ class Judge:
                 tok.append(('gone', e[1]))
             elif k == 'SL':
                 self.classes.add('raw-client-got-frames')
+                if cl.get('continuity'):
+                    # a conforming raw client that never changes its own services and pauses only for a few frame periods (inside
+                    # a message of its own) keeps up: the frames it receives are consecutive
+                    _, t, count, first, last = e
+                    if count != last - first + 1:
+                        self.v(self.pid + ':gap:split-message-client', '%s: %d frames received in a row, numbers %d..%d' % (name, count, first, last))
+                    elif getattr(self, '_sl_last_%d' % idx, None) is not None and first != getattr(self, '_sl_last_%d' % idx) + 1:
+                        self.v(self.pid + ':gap:split-message-client', '%s: frame %d follows frame %d although the client only paused for a few frame periods inside a message of its own while another client changed its services' % (name, first, getattr(self, '_sl_last_%d' % idx)))
+                    setattr(self, '_sl_last_%d' % idx, last)
+                    self.classes.add('split-message-client-frames')
         if reached_forward and sent_after_forward:
             self.classes.add('fault-in-forward-state')
             self.nt_fault = True
@@ -661,6 +671,8 @@ class Judge:
 
     def nontrivial(self):
         if self.pid == 'C18':
+            if 'split-message-client-frames' in self.classes and 'service-change' in self.classes:
+                return True
             # >= 2 clients with different service sets overlapping in time and a stall or a service change
             if not ({'stall', 'service-change'} & self.classes):
                 return False
